@@ -420,6 +420,7 @@ Step(S, ev) ==
     [] e = "Patch"   -> IF McOf(S, ev.ch) = 0 THEN Ret(S) ELSE Ret([S EXCEPT !.mc[McOf(S, ev.ch)].patch = ev.p])
     [] e = "Bend"    -> IF McOf(S, ev.ch) = 0 THEN Ret(S)
                         ELSE Ret(NoteUpdateAll([S EXCEPT !.mc[McOf(S, ev.ch)].bend = ev.v - 8192], McOf(S, ev.ch), UpdPitch))
+    [] e = "NoteAT"  -> Ret(S)
     [] e = "ChanAT"  -> IF McOf(S, ev.ch) = 0 THEN Ret(S) ELSE Ret([S EXCEPT !.mc[McOf(S, ev.ch)].at = ev.v])
     [] e = "BankMSB" -> IF McOf(S, ev.ch) = 0 THEN Ret(S) ELSE Ret([S EXCEPT !.mc[McOf(S, ev.ch)].msb = ev.v])
     [] e = "BankLSB" -> IF McOf(S, ev.ch) = 0 THEN Ret(S) ELSE Ret([S EXCEPT !.mc[McOf(S, ev.ch)].lsb = ev.v])
@@ -441,7 +442,7 @@ Step(S, ev) ==
     [] e = "SetIns"  -> IF ev.r = 0 THEN Ret([S EXCEPT !.bl = SetInsBl(@, ev.msb * 256 + ev.lsb + (IF ev.p = 1 THEN PercTag ELSE 0), ev.i, ev.insrec)])
                         ELSE [s |-> S, r |-> ev.r]
     [] OTHER -> Ret(S)
-Modelled(ev) == ev.e \in {"NoteOn", "NoteOff", "CC", "Patch", "Bend", "ChanAT", "BankMSB", "BankLSB", "Bank", "SysEx", "Panic",
+Modelled(ev) == ev.e \in {"NoteOn", "NoteOff", "CC", "Patch", "Bend", "ChanAT", "NoteAT", "BankMSB", "BankLSB", "Bank", "SysEx", "Panic",
                           "ResetState", "Gen", "SetArp", "SetAlloc", "SetDevId", "SetNumChips", "Reset", "SwitchEmu", "SetRunAtPcm",
                           "SetChipType", "OpenBank", "SetIns"}
 
